@@ -157,7 +157,19 @@ def check_kill_points(kill_after: int, early_unlink: bool) -> bool:
     # externally visible effects (1 = semaphore created in the kernel, 2 = REGISTER sent,
     # 3/4 = the two steps of the finalizer; 5 = never). Effects after the kill do not happen.
     # (kill_after == 1, death between sem_open and the REGISTER message, is finding F7.)
-    kill_after = _conc(kill_after - 2, 3) + 2
+    return _kill_points(_conc(kill_after - 2, 3) + 2, early_unlink)
+
+
+def check_kill_window_f7(early_unlink: bool) -> bool:
+    """
+    post: _
+    """
+    # kill_after == 1: the owner dies between sem_open and the REGISTER message.  Known finding F7 (inherent
+    # two-step window): this unit is expected to report it - as KNOWN-FINDING - for as long as it exists.
+    return _kill_points(1, early_unlink)
+
+
+def _kill_points(kill_after, early_unlink):
     log = Log()
     kernel = set()
     msgs = []
